@@ -23,6 +23,21 @@ theorem gauge_exactly_once {float : Bool} {prog : List (List String)} {s : ASt}
       else if i = th.idx ∧ th.retv.isSome ∧ skipOp (th.ops.getD i "") = false then 1 else 0 :=
   exactly_once h t th hth i
 
+/-- **gauge_real_time_order** — the commit order of a gauge (`set`, `add`, `sub`, `inc`, `dec`, `get`;
+    float or integer) is consistent with real time. Take any state `s` of an accepted run and any
+    continuation to `s'`. A call (`t`, `i`) that has RETURNED in `s` and a call (`t'`, `i'`) that in
+    `s` has not started (or is in progress but has not taken effect yet): wherever the two appear in
+    the later commit log - the order `gauge_linearizable` executes the calls in -, the first is before
+    the second. So a `get` that begins after a `set` / `add` has returned is explained with that
+    update before it, and an update that begins after a `get` has returned is not seen by it. -/
+theorem gauge_real_time_order {float : Bool} {prog : List (List String)} {s s' : ASt}
+    (h : AReach (aInit float false prog) s) (h' : AReach s s')
+    {t t' : Nat} {th th' : Th APc} (hth : s.ths[t]? = some th) (hth' : s.ths[t']? = some th')
+    {i i' : Nat} (hret : i < th.idx) (hnot : th'.idx < i' ∨ (i' = th'.idx ∧ th'.retv = none))
+    {p q : Nat} {x y : LinEv} (hx : s'.lin[p]? = some x) (hy : s'.lin[q]? = some y)
+    (hxt : x.tid = t ∧ x.idx = i) (hyt : y.tid = t' ∧ y.idx = i') : p < q :=
+  real_time_commit_order h h' hth hth' hret hnot hx hy hxt hyt
+
 /-- **set_not_torn** — a `set` is one store of one 64-bit pattern: the accepted event is a single
     store whose operand is the whole new value, the cell holds exactly that value afterwards, and the
     call is complete with that one step -/
